@@ -76,7 +76,7 @@ sys.path.insert(0, {here!r})
 
 
 def write_replay(pid, failure, extra=''):
-    d = os.path.join(HERE, 'replays', pid)
+    d = os.path.join(os.environ.get('VERIF_REPLAY_DIR', os.path.join(HERE, 'replays')), pid)
     os.makedirs(d, exist_ok=True)
     h = hashlib.sha256((failure.signature + failure.detail).encode()).hexdigest()[:10]
     name = ''.join(ch if ch.isalnum() or ch in '-_.' else '_' for ch in (failure.obligation or failure.signature))[:80]
@@ -265,8 +265,9 @@ def run_check(spec, tier, seed):
     ev = {"property_id": pid, "tier": tier, "seed": seed, "level": level, "coverage": coverage,
           "assumptions": list(getattr(spec, 'ASSUMPTIONS', [])), "wall_s": round(wall, 2),
           "violations": len(reported)}
-    os.makedirs(os.path.join(HERE, 'evidence'), exist_ok=True)
-    with open(os.path.join(HERE, 'evidence', pid + '.json'), 'w') as f:
+    evdir = os.environ.get('VERIF_EVIDENCE_DIR', os.path.join(HERE, 'evidence'))
+    os.makedirs(evdir, exist_ok=True)
+    with open(os.path.join(evdir, pid + '.json'), 'w') as f:
         json.dump(ev, f, indent=1, sort_keys=True, default=str)
     print("%s tier=%s obligations=%d discharged=%d undecided=%d bounded_evaluations=%d violations=%d known=%d wall=%.1fs"
           % (pid, tier, summ['obligations'], summ['discharged'], len(summ['undecided']), bres.evaluations,
